@@ -428,6 +428,7 @@ def rule_r1(ctx, repo):
             rets = [(s, o[1]) for s, o in traces if o[0] == "return"]
             raises = [s for s, o in traces if o[0] == "raise"]
             ctx.count("scenarios")
+            check_casts(ctx, "R1", tag, loc, it)
             if not rets or any(not isinstance(r, Tup) or len(r.items) != 2 for _, r in rets) or len(rets) > 4:
                 ctx.undecided("R1", tag, "expected normal return(s) of (yt, Xt), found %r" % ([r for _, r in rets],), loc)
                 continue
@@ -496,6 +497,45 @@ def run_method(repo, it, selfv, name, args, facts):
     a["self"] = selfv
     traces, fst = it.run_function(Frame(k.module, fn, selfv.cls, k), a, State(facts=facts))
     return traces, k, fn
+
+
+def check_refit(ctx, repo, run, tag, loc):
+    """(H1) history fit; fit: every regressor-holding attribute is re-established by the second fit -- nothing fitted on the
+    first series survives into the state the predictions are made from."""
+    first = {a: run.selfv.attrs.get(a) for a in ("estimators_", "estimator_")}
+    run.rec.calls = []
+    traces, k, fn = run_method(repo, run.it, run.selfv, "fit", {"y": Ser("y2", N, T), "X": K(None), "fh": FH}, base_facts(False))
+    rets = [s for s, o in traces if o[0] == "return"]
+    c = tag + ":refit"
+    if len(rets) != 1:
+        ctx.undecided("R2", c, "second fit has %d normal returns" % len(rets), loc)
+        return
+    bad = None
+    for a, old in first.items():
+        new = run.selfv.attrs.get(a)
+        hp = getattr(rets[0], "heap", {})
+        new = hp.get((id(run.selfv), a), new)
+        if old is None and new is None:
+            continue
+        if isinstance(old, ListV):
+            if new is old:
+                bad = (a, "the list of the first fit is kept and extended by the second fit (%d append sites recorded): estimators_[i] for "
+                          "i < len(fh) are still the regressors trained on the first series" % len(old.appends))
+            elif not isinstance(new, ListV) or list_len(new) is None:
+                ctx.undecided("R2", c, "%s after the second fit is %r" % (a, new), loc)
+                return
+        elif isinstance(old, EstV):
+            if new is old:
+                bad = (a, "the regressor fitted on the first series is still in place after the second fit")
+            elif not (isinstance(new, EstV) and new.cloned):
+                ctx.undecided("R2", c, "%s after the second fit is %r" % (a, new), loc)
+                return
+    ctx.check(bad is None, "R2", c, "a second fit replaces every fitted regressor", "after fit(y1); fit(y2): %s -- %s" % (bad or ("", "")), loc,
+              witness={"history": "fit(y1, fh); fit(y2, fh); predict()", "stale": bad[0] if bad else None})
+    # restore the first-fit state for the prediction rules that follow
+    for a, old in first.items():
+        if old is not None:
+            run.selfv.attrs[a] = old
 
 
 def nan_return(ctx, rule, tag, loc, rets):
@@ -629,6 +669,8 @@ def rule_reducers(ctx, repo, classes):
                 pred_dirrec(ctx, repo, run, tag, sci, facts, envs)
             else:
                 ctx.undecided("R2", tag, "unknown strategy %r" % strat, ctx.loc(mod, cls.node))
+            if not with_X:
+                check_refit(ctx, repo, run, tag, loc_fit)
             if with_X and "fit" in run.orders and "predict" in run.orders:
                 ctx.check(run.orders["fit"] == run.orders["predict"], "R3", tag + ":flatten-order-agrees",
                           "fit and predict flatten (variable, lag) in the same memory order (%s)" % run.orders["fit"],
@@ -1047,6 +1089,31 @@ def check_pred_dtype(ctx, rule, tag, loc, b, what):
         ctx.violation(rule, c, "%s is allocated as an integer array: regressor outputs are truncated" % what, loc, witness={"dtype": repr(dt)})
     else:
         ctx.undecided(rule, c, "%s is allocated with dtype %r" % (what, dt), loc)
+
+
+def check_casts(ctx, rule, tag, loc, it):
+    """Observed data handed on to the regressor must not be cast to a dtype taken from *other* data."""
+    casts = getattr(it, "casts", [])
+    bad = und = None
+    for node, recv, dt in casts:
+        if (isinstance(dt, K) and dt.v in (None, "float", "float64")) or (isinstance(dt, Opq) and dt.tag in FLOAT_DTYPES):
+            continue
+        if isinstance(dt, Opq) and dt.tag == "attr:dtype" and dt.args and isinstance(dt.args[0], Nd):
+            src = dt.args[0]
+            same = src is recv
+            if not same:
+                bad = (node, recv, src)
+        else:
+            und = (node, recv, dt)
+    c = tag + ":no-data-dependent-cast"
+    if bad:
+        ctx.violation(rule, c, "%r is cast to the dtype of %r before it is tabularised: with an integer-valued target the real-valued "
+                      "exogenous observations are truncated, so the training rows no longer hold the observed values" % (bad[1], bad[2]),
+                      "%s:%s" % (loc.split(":")[0], getattr(bad[0], "lineno", "?")), witness={"y_dtype": "int64", "X": "0.7 -> 0"})
+    elif und:
+        ctx.undecided(rule, c, "observed data is cast with dtype %r" % (und[2],), loc)
+    else:
+        ctx.ok(rule, c, "observed values reach the lag matrix without a data-dependent cast", loc)
 
 
 def check_ypred_store(ctx, tag, loc, ypb, c, var, lp, pf):
@@ -1616,61 +1683,73 @@ def rule_dispatch(ctx, repo):
     full = all((a, b) in table for a in lvl1 for b in lvl2)
     ctx.check(full, "R5", "_get_forecaster:registry-complete", "every (scitype, strategy) pair has an entry",
               "registry is not a full product of its keys", loc)
-    # validators
-    def valid_tuple(fname):
+    # validators and inference, decided by interpreting them on every candidate value (no syntactic shape is assumed)
+    def run_on(fname, value, hooks=None):
         f = repo.func(RED, fname)
-        p = astq.param_names(f)[0]
-        for n in ast.walk(f):
-            if isinstance(n, ast.Compare) and len(n.ops) == 1 and isinstance(n.ops[0], ast.NotIn) and dotted(n.left) == p:
-                e = astq.inline_locals(f, n.comparators[0])
-                vals = astq.str_consts(e)
-                if vals is not None:
-                    return f, set(vals), n
-        return f, None, None
+        it_ = AInterp(repo, scenario={}, hooks=hooks)
+        tr, _ = it_.run_function(Frame(mod, f), {astq.param_names(f)[0]: value}, State())
+        return f, [o[1] for s_, o in tr if o[0] == "return"], [1 for s_, o in tr if o[0] == "raise"], [1 for s_, o in tr if o[0] == "fall"]
 
-    f1, sv, _ = valid_tuple("_check_scitype")
-    ctx.check(None if sv is None else sv - {"infer"} == scitypes, "R5", "_check_scitype:table",
-              "valid scitypes minus 'infer' == registry keys", "valid scitypes %r vs registry keys %r" % (sv, sorted(scitypes)), ctx.loc(mod, f1))
-    f2, tv, _ = valid_tuple("_check_strategy")
-    ctx.check(None if tv is None else tv == strategies, "R5", "_check_strategy:table", "valid strategies == registry keys",
-              "valid strategies %r vs registry keys %r" % (tv, sorted(strategies)), ctx.loc(mod, f2))
-    for f, nm in ((f1, "_check_scitype"), (f2, "_check_strategy")):
-        rs = astq.returns(f)
-        p = astq.param_names(f)[0]
-        ctx.check(len(rs) >= 1 and all(dotted(r.value) == p for r in rs) and not astq.assigned_in(f, p), "R5", nm + ":identity",
-                  "validator returns its argument unchanged", "validator does not return its argument unchanged", ctx.loc(mod, f))
-    f3 = repo.func(RED, "_infer_scitype")
-    rv = set()
-    ok = True
-    for r in astq.returns(f3):
-        if isinstance(r.value, ast.Constant) and isinstance(r.value.value, str):
-            rv.add(r.value.value)
+    for nm, valid, what in (("_check_scitype", scitypes | {"infer"}, "scitypes"), ("_check_strategy", strategies, "strategies")):
+        accepted, rejected, unclear, changed = set(), set(), set(), {}
+        f_ = repo.func(RED, nm)
+        for v in sorted(valid) + ["no-such-value"]:
+            f_, rets_, raises_, falls_ = run_on(nm, K(v))
+            if rets_ and not raises_ and not falls_:
+                accepted.add(v)
+                if any(r != K(v) for r in rets_):
+                    changed[v] = rets_
+            elif raises_ and not rets_ and not falls_:
+                rejected.add(v)
+            elif falls_ and not rets_ and not raises_:
+                accepted.add(v)
+                changed[v] = [K(None)]
+            else:
+                unclear.add(v)
+        locv = ctx.loc(mod, f_)
+        if unclear:
+            ctx.undecided("R5", nm + ":table", "cannot decide whether %r are accepted" % sorted(unclear), locv)
         else:
-            ok = False
-    ctx.check(ok and rv == scitypes, "R5", "_infer_scitype:values", "inferred scitypes == registry keys",
-              "_infer_scitype returns %r, registry keys are %r" % (sorted(rv), sorted(scitypes)), ctx.loc(mod, f3))
-    # isinstance order: BaseRegressor (time series) before RegressorMixin (tabular)
-    order = []
-    for n in ast.walk(f3):
-        if isinstance(n, ast.If) and isinstance(n.test, ast.Call) and dotted(n.test.func) == "isinstance" and len(n.test.args) == 2:
-            sym = repo.resolve_expr(mod, n.test.args[1])
-            ret = [r for r in n.body if isinstance(r, ast.Return)]
-            if sym is not None and ret and isinstance(ret[0].value, ast.Constant):
-                order.append((n.lineno, sym.dotted or "", ret[0].value.value))
-    order.sort()
-    want = {"sktime.regression.base.BaseRegressor": TSR, "sklearn.base.RegressorMixin": TAB}
-    got = {d: v for _, d, v in order}
-    good = None
-    if set(got) == set(want):
-        good = got == want and [d for _, d, _ in order][0] == "sktime.regression.base.BaseRegressor"
-    ctx.check(good, "R5", "_infer_scitype:order", "BaseRegressor -> time-series-regressor is tested before RegressorMixin -> tabular-regressor",
-              "_infer_scitype maps %r (in this order)" % ([(d, v) for _, d, v in order],), ctx.loc(mod, f3))
-    from ..cfg import CFG, block_always_raises
-    last_if = [n for n in ast.walk(f3) if isinstance(n, ast.If)]
-    has_default_raise = any(n.orelse and block_always_raises(n.orelse) for n in last_if) or \
-        (f3.body and isinstance(f3.body[-1], ast.Raise))
-    ctx.check(bool(has_default_raise), "R5", "_infer_scitype:rejecting-default", "unknown estimators are rejected",
-              "no rejecting default branch", ctx.loc(mod, f3))
+            ctx.check(accepted == valid, "R5", nm + ":table", "accepted %s == registry keys%s" % (what, " + 'infer'" if nm == "_check_scitype" else ""),
+                      "accepted %s %r vs registry keys %r" % (what, sorted(accepted), sorted(valid)), locv,
+                      witness={"accepted": sorted(accepted), "expected": sorted(valid)})
+        ctx.check(not changed if not unclear else None, "R5", nm + ":identity", "validator returns its argument unchanged",
+                  "validator does not return its argument unchanged: %r" % ({k: repr(v) for k, v in changed.items()},), locv)
+
+    f3 = repo.func(RED, "_infer_scitype")
+    loc3 = ctx.loc(mod, f3)
+    kinds = {"time-series regressor only": (True, False, TSR), "time-series regressor that is also an sklearn RegressorMixin": (True, True, TSR),
+             "tabular regressor": (False, True, TAB), "neither": (False, False, None)}
+    for kind, (is_ts, is_tab, want_) in kinds.items():
+        def hk_inf(interp, frame, call, fname, args, kwargs, st, is_ts=is_ts, is_tab=is_tab):
+            if interp.ext_name(fname, frame) == "builtins.isinstance" and len(args) == 2:
+                cands = args[1].items if isinstance(args[1], Tup) else [args[1]]
+                res = []
+                for c_ in cands:
+                    d_ = c_.tag if isinstance(c_, Opq) else ""
+                    if d_.endswith("regression.base.BaseRegressor"):
+                        res.append(is_ts)
+                    elif d_.endswith("sklearn.base.RegressorMixin"):
+                        res.append(is_tab)
+                    else:
+                        return Opq("isinstance", args)
+                return K(any(res))
+            return NotImplemented
+
+        _, rets_, raises_, falls_ = run_on("_infer_scitype", Opq("param:estimator"), hk_inf)
+        c_ = "_infer_scitype[%s]" % kind
+        if want_ is None:
+            ctx.check(True if (raises_ and not rets_ and not falls_) else (False if (rets_ or falls_) and not raises_ else None), "R5", c_,
+                      "an estimator that is neither kind is rejected", "an estimator that is neither a time-series nor a tabular regressor is "
+                      "not rejected (returns %r)" % (rets_,), loc3)
+        elif raises_ or falls_ or len(set(map(repr, rets_))) != 1 or not all(isinstance(r, K) for r in rets_):
+            ctx.check(False if (raises_ and not rets_) else None, "R5", c_, "", "inference for a %s does not return one scitype (returns %r, raises: %s)"
+                      % (kind, rets_, bool(raises_)), loc3)
+        else:
+            ctx.check(rets_[0] == K(want_), "R5", c_, "a %s is inferred as %s" % (kind, want_),
+                      "a %s is inferred as %r instead of %r (sktime's own TimeSeriesForestRegressor inherits from both)" % (kind, rets_[0].v, want_)
+                      if is_ts and is_tab else "a %s is inferred as %r instead of %r" % (kind, rets_[0].v, want_), loc3,
+                      witness={"estimator": kind, "inferred": rets_[0].v, "expected": want_})
     # make_reduction: validators precede the lookup, arguments keep their roles, estimator and window_length forwarded
     mr = repo.func(RED, "make_reduction")
     rec = Rec()
